@@ -14,7 +14,7 @@ RULE = ("Sequential: all ordered trees with <= N nodes over node kinds {extract(
         "parent (the root from outside any extraction); before/after every child the hook records what is visible through the "
         "public API: (contexts present on a probe frame, extract_child(for_task=True) populated) or 'outside' when extract_child "
         "refuses. Reference model: a stack of option pairs (state = stack contents, transition = one node entry/exit). "
-        "Concurrent: 2-3 threads (thorough: also 4 threads with <= 1 preemption) each running a script, all schedules with <= B preemptions, scheduling points at every line of "
+        "Concurrent: 2-3 threads (thorough: also 4 threads with <= 1 preemption) each running a script, all schedules with <= B preemptions (B = 2 quick, 3 thorough), scheduling points at every line of "
         "ExtractOptions.push and at every observation; each thread's observation log must equal its sequential reference.")
 ASSUMPTIONS = ["observations go only through the public API (extract_child results, Frame.contexts)",
                "interleavings at source-line granularity of ExtractOptions.push plus hook boundaries"]
@@ -32,7 +32,7 @@ def legs(tier):
 
 
 def bounds(tier):
-    return {"max_nodes": 3 if tier == "quick" else 4, "preemption_bound": 2}
+    return {"max_nodes": 3 if tier == "quick" else 4, "preemption_bound": 2 if tier == "quick" else 3}
 
 
 _W = {}
